@@ -73,6 +73,9 @@ if __name__ == '__main__':
     elif args and args[0] == '--round3':
         STORE.update({'A': 'E', 'B': 'F'})
         args = args[1:]
+    elif args and args[0] == '--letters':          # e.g. --letters GH for a fourth round
+        STORE.update({'A': args[1][0], 'B': args[1][1]})
+        args = args[2:]
     pairs = [(args[i], args[i + 1]) for i in range(0, len(args), 2)]
     with ThreadPoolExecutor(8) as ex:
         futs = [ex.submit(confirm, wt, pid, l) for wt, pid in pairs for l in 'AB']
